@@ -587,6 +587,15 @@ func streamStrings(e encEmitter) {
 			e.emit(st, listT("st", listT("s", atomT(hexS(s)))))
 		}
 	}
+	// long strings dense in characters the EscapeHTML / ValidateString post-passes rewrite: the escaped
+	// text outgrows its buffer several times (restart logic of the escape loops)
+	if e.mode != "all" {
+		for _, unit := range []string{"<", "&>", "<a>", "\u2028", "x<"} {
+			for _, n := range []int{100, 700, 1500, 5000, 20000} {
+				e.emit(atomT("str"), listT("s", atomT(hexS(strings.Repeat(unit, n/len(unit))))))
+			}
+		}
+	}
 	for i := 0; i < g.N; i++ {
 		tn := shapes[g.R.Intn(len(shapes))]()
 		e.emit(tn, evalue(g, tn, 2, vo))
@@ -793,6 +802,35 @@ func streamErrors(e encEmitter) {
 			lt := listT("lib", atomT(n))
 			tn, v := cbPosition(g, lt, cbValue(t))
 			e.emit(tn, v)
+		}
+	}
+	// json.Number texts: every proper prefix and every single-character deletion of a few valid
+	// literals (most are invalid: a sign, a dot or an exponent marker left hanging), at three positions
+	if e.mode != "all" {
+		seen := map[string]bool{}
+		for _, lit := range []string{"-12.5e+10", "0.5E-3", "1e5", "-0", "10.25", "3E+7"} {
+			var cands []string
+			for i := 0; i <= len(lit); i++ {
+				cands = append(cands, lit[:i])
+				if i < len(lit) {
+					cands = append(cands, lit[:i]+lit[i+1:])
+				}
+			}
+			for _, c := range cands {
+				if seen[c] {
+					continue
+				}
+				seen[c] = true
+				nv := listT("num", atomT(hexS(c)))
+				switch len(seen) % 3 {
+				case 0:
+					e.emit(atomT("num"), nv)
+				case 1:
+					e.emit(listT("sl", atomT("num")), listT("sl", listT("num", atomT(hexS("1"))), nv))
+				default:
+					e.emit(listT("st", listT("f", atomT("N"), atomT(tagHex("n")), atomT("num"))), listT("st", nv))
+				}
+			}
 		}
 	}
 	// generated part: NaN/Inf, invalid json.Number, invalid RawMessage, map keys encoding/json rejects
